@@ -7,7 +7,8 @@ import json, random
 ATOM = {"a": ["10.0.0.0/10"], "b": ["10.64.0.0/10"], "d": ["10.192.0.0/10"], "c": ["2001:db8:8000::/33"],
         "r9": ["10.0.0.0/9", "10.128.0.0/9"],
         "r11": ["10.%d.0.0/11" % (32 * k) for k in range(8)],
-        "h11": ["10.%d.0.0/11" % (32 * k) for k in range(4)]}
+        "h11": ["10.%d.0.0/11" % (32 * k) for k in range(4)],
+        "r33": ["2001:db8::/33", "2001:db8:8000::/33"]}
 
 def prefixes(xs):
     out = []
@@ -48,9 +49,16 @@ def exp(sel=True, marked=True, ev="ok", v4=(), v6=(), expr="", why=""):
             "expr": expr, "why": why}
 
 class Irr:
+    count = 0
     def __init__(self):
         self.db = {"as_sets": {}, "routes4": {}, "routes6": {}, "errors": {}, "filter_sets": {}, "route_sets": {}}
         self.n = 0
+        # every fifth IRR database of a generation answers in pieces of a few bytes, every seventh with padded answers
+        Irr.count += 1
+        if Irr.count % 5 == 0:
+            self.db["dribble"] = [1, 3, 7, 50][(Irr.count // 5) % 4]
+        if Irr.count % 7 == 0:
+            self.db["pad"] = 5000
     def asset_with(self, v4, v6):
         """a fresh as-set whose (nested) members originate exactly these atoms"""
         self.n += 1
@@ -99,6 +107,19 @@ def hist_scenarios(histories, per_scenario, prop, rng, small=0):
                     if (s + i) % 2 == 0:
                         running.append(stmt(name, "/* no longer managed */"))
                     policies[name] = exp(False, False, "none", why="unmarked")
+            # on every second router: policies whose evaluation meets IRR errors that the evaluator sinks by design (the
+            # route queries of one member AS answered F / E): they are installed with what the other members originate,
+            # and whatever the evaluator remembers of those errors must not touch the policies evaluated after them
+            if (s // max(1, per_scenario)) % 2 == 0 or len(chunk) <= 2:
+                for j in range(3):
+                    name = f"noisy-{j}"
+                    expr = irr.asset_with(["a", "b"] if j % 2 == 0 else ["d"], ["c"])
+                    asn_bad = f"AS{64900 + j}"
+                    irr.db["as_sets"][expr].append(asn_bad)
+                    irr.db["routes4"][asn_bad] = prefixes(["r9"]); irr.db["routes6"][asn_bad] = []
+                    irr.db["errors"][f"!g{asn_bad}"] = ["F", "E", "F"][j]; irr.db["errors"][f"!6{asn_bad}"] = ["F", "E", "F"][j]
+                    running.append(stmt(name, f"/* bgpfu-fltr: {expr} */"))
+                    policies[name] = exp(True, True, "ok", ["a", "b"] if j % 2 == 0 else ["d"], ["c"], expr, "one member's route queries answered with an error (sunk)")
             runs.append({"running": running, "irr": irr.db, "faults": [], "repeat": k == depth,
                          "expect": {"prop": prop, "c16": False, "policies": policies}})
         out.append({"case": f"{prop}-h{s}", "instance": "bgpfu", "eph0": [], "runs": runs, "meta": {"family": "hist", "policies": len(chunk)}})
@@ -113,7 +134,14 @@ def fault_scenarios(cases, prop):
             running.append(stmt(name, f"/* bgpfu-fltr: {expr} */"))
             policies[name] = exp(True, True, "ok", ["a", "r11"][: 1 + i % 2], ["c"] if i % 2 else [], expr, "fault-case")
         faults = [] if c["target"] == "none" else [{"target": c["target"], "index": c["index"], "kind": c["kind"]}]
-        out.append({"case": f"{prop}-f{k}", "instance": "bgpfu-inst", "eph0": [],
+        # every third scenario: the run has removals as well (policies that are installed and no longer managed), so that
+        # its loads are of two kinds; the numbered load of the fault may then be either
+        eph0 = []
+        if k % 3 == 1:
+            for j in range(1 + k % 2):
+                eph0.append(installed(f"stale-{j}", ["d"], ["c"]))
+                policies[f"stale-{j}"] = exp(False, False, "none", why="unmarked")
+        out.append({"case": f"{prop}-f{k}", "instance": "bgpfu-inst", "eph0": eph0,
                     "runs": [{"running": running, "irr": irr.db, "faults": faults, "repeat": False,
                               "expect": {"prop": prop, "c16": False, "policies": policies}}],
                     "meta": dict(c, family="fault")})
@@ -182,6 +210,42 @@ def c03_scenarios(cases, prop):
                               "expect": {"prop": prop, "c16": False,
                                          "policies": {name: e, "good": exp(True, True, "ok", ["d"], ["c"], gexpr, "control")}}}],
                     "meta": dict(c, family="c03")})
+    # whole-set conditions: NO policy of the run can be evaluated while others are to be removed (the plan consists of
+    # removals only), and nothing at all is to be done; one and several failing policies
+    for k, (nbad, nstale) in enumerate([(1, 1), (2, 2), (3, 0), (1, 3)]):
+        irr = Irr(); running = []; policies = {}; eph = []
+        for i in range(nbad):
+            cls = ["unknown-as-set", "error-F", "peeras"][i % 3]
+            expr, ev = bad_policy(irr, cls, f"-W{k}{i}")
+            name = f"only-bad-{i}"
+            eph.append(installed(name, ["a", "b"], ["c"]))
+            running.append(stmt(name, f"/* bgpfu-fltr: {expr} */"))
+            policies[name] = exp(True, True, ev, why=f"{cls} installed=True, nothing else can be evaluated")
+        for i in range(nstale):
+            eph.append(installed(f"stale-{i}", ["d"], []))
+            policies[f"stale-{i}"] = exp(False, False, "none", why="unmarked")
+        out.append({"case": f"{prop}-w{k}", "instance": "bgpfu", "eph0": eph,
+                    "runs": [{"running": running, "irr": irr.db, "faults": [], "repeat": r == 1,
+                              "expect": {"prop": prop, "c16": False, "policies": policies}} for r in range(2)],
+                    "meta": {"family": "c03", "whole_set": f"{nbad} unevaluable, {nstale} to remove, none evaluable"}})
+    # the installed state holds something the agent cannot read (a term written by an older release: name only) next
+    # to a readable policy whose data cannot be obtained: whatever the agent does about the first must not cost the second
+    for k, cls in enumerate(["unknown-as-set", "error-E", "aspath-regex"]):
+        irr = Irr(); running = []; policies = {}
+        legacy = {"name": "legacy", "reject": True, "terms": [{"name": "inet", "family": None, "accept": False, "filters": []}]}
+        expr, ev = bad_policy(irr, cls, f"-U{k}")
+        running.append(stmt("keep", f"/* bgpfu-fltr: {expr} */"))
+        policies["keep"] = exp(True, True, ev, why=f"{cls} installed=True next to an unreadable policy")
+        lexpr = irr.asset_with(["a"], [])
+        running.append(stmt("legacy", f"/* bgpfu-fltr: {lexpr} */"))
+        policies["legacy"] = exp(True, True, "skip", why="installed in a shape the reader refuses")
+        gexpr = irr.asset_with(["d"], [])
+        running.append(stmt("good", f"/* bgpfu-fltr: {gexpr} */"))
+        policies["good"] = exp(True, True, "skip", why="control")
+        out.append({"case": f"{prop}-u{k}", "instance": "bgpfu", "eph0": [installed("keep", ["a", "b"], ["c"]), legacy],
+                    "runs": [{"running": running, "irr": irr.db, "faults": [], "repeat": False,
+                              "expect": {"prop": prop, "c16": False, "foreign": True, "policies": policies}}],
+                    "meta": {"family": "c03", "unreadable_installed": True, "class": cls}})
     for mode in ("refuse", "close"):
         irr = Irr(); expr = irr.asset_with(["a"], [])
         out.append({"case": f"{prop}-irr-{mode}", "instance": "bgpfu", "eph0": [installed("keep", ["a"], ["c"]), installed("gone", ["d"], [])],
@@ -367,6 +431,92 @@ def daemon_scenarios(prop):
                               "expect": {"prop": prop, "c16": False, "policies": policies}}],
                     "meta": {"family": "daemon", "sessions": sessions, "reset_before": reset_before}})
     return out
+
+TRICKY_NAMES = ["AT&amp;T-in", "&lt;peer&gt;-in", "&#65;S65000-in", "a&amp;amp;b", "R&D; lab", "x]]>y", "quote\"s'", "caf\u00e9-\u6f22", "sl/ash\\back",
+                "trailing-dot.", "-leading-dash", "100%", "{brace}[bracket]", "tab\there", "semi;colon", "#hash", "UPPER-lower", "p" * 200]
+
+def name_scenarios(prop):
+    """C10 at the level of the agent (policy names and comments travel from the router's configuration through the agent
+    into its requests): names containing text that looks like an entity or character reference, the delimiter, quotes,
+    non-ASCII text, 200 characters.  Each policy is created, changed and removed - by exactly its name."""
+    runs = []
+    for k in range(4):
+        irr = Irr(); running = []; policies = {}
+        for i, name in enumerate(TRICKY_NAMES):
+            if k == 2 or (k == 3):
+                running.append(stmt(name, "/* no longer managed */"))
+                policies[name] = exp(False, False, "none", why="unmarked")
+            else:
+                tgt = (["a"], ["c"]) if (k + i) % 2 == 0 else (["a", "b"], [])
+                expr = irr.asset_with(*tgt)
+                running.append(stmt(name, f"/* bgpfu-fltr: {expr} */"))
+                policies[name] = exp(True, True, "ok", tgt[0], tgt[1], expr, "tricky name")
+        runs.append({"running": running, "irr": irr.db, "faults": [], "repeat": k == 3,
+                     "expect": {"prop": prop, "c16": True, "policies": policies}})
+    return [{"case": f"{prop}-names", "instance": "bgpfu", "eph0": [], "runs": runs, "meta": {"family": "names"}}]
+
+def boundary_scenarios(prop):
+    """Boundary values of the prefix space: the default route, everything up to /24 (/48), host routes, ranges that reach
+    the longest length.  They lie outside the denotation universes, so the scenario states the expected route-filters
+    literally; each policy takes a turn at every value, then empties."""
+    v4 = [("{0.0.0.0/0}", ["0.0.0.0/0 /0-/0"]), ("{0.0.0.0/0^0-24}", ["0.0.0.0/0 /0-/24"]), ("{192.0.2.1/32}", ["192.0.2.1/32 /32-/32"]),
+          ("{198.51.100.0/24^+}", ["198.51.100.0/24 /24-/32"]), ("{0.0.0.0/0^0-24, 192.0.2.1/32}", ["0.0.0.0/0 /0-/24", "192.0.2.1/32 /32-/32"])]
+    v6 = [("{::/0}", ["::/0 /0-/0"]), ("{::/0^0-48}", ["::/0 /0-/48"]), ("{2001:db8::1/128}", ["2001:db8::1/128 /128-/128"]),
+          ("{2001:db8:ff00::/40^+}", ["2001:db8:ff00::/40 /40-/128"])]
+    steps = max(len(v4), len(v6)) + 1
+    runs = []
+    for k in range(steps + 1):
+        kk = min(k, steps - 1)
+        irr = Irr(); running = []; policies = {}
+        def pol(name, e4, e6):
+            parts = [x[0].strip("{}") for x in (e4, e6) if x]
+            f4 = e4[1] if e4 else []; f6 = e6[1] if e6 else []
+            expr = "{" + ", ".join(parts) + "}" if parts else None
+            if expr is None:
+                expr = irr.asset_with([], [])            # an as-set without any route: the policy empties
+            running.append(stmt(name, f"/* bgpfu-fltr: {expr} */"))
+            policies[name] = {"sel": True, "marked": True, "eval": "ok", "v4": [], "v6": [], "filters4": f4, "filters6": f6, "expr": "", "why": "boundary values"}
+        last = kk == steps - 1
+        pol("edge-v4", None if last else v4[kk % len(v4)], None)
+        pol("edge-v6", None, None if last else v6[kk % len(v6)])
+        pol("edge-both", None if last else v4[(kk + 1) % len(v4)], None if last else v6[(kk + 2) % len(v6)])
+        sexpr = irr.asset_with(["a"], ["c"])
+        running.append(stmt("inside", f"/* bgpfu-fltr: {sexpr} */"))
+        policies["inside"] = exp(True, True, "ok", ["a"], ["c"], sexpr, "next to the boundary policies")
+        runs.append({"running": running, "irr": irr.db, "faults": [], "repeat": k == steps,
+                     "expect": {"prop": prop, "c16": False, "policies": policies}})
+    return [{"case": f"{prop}-edge", "instance": "bgpfu", "eph0": [], "runs": runs, "meta": {"family": "boundary"}}]
+
+def volume_scenarios(prop):
+    """A run whose updates add up to more than 4096 statements although no single policy is large: 12 policies of
+    400 ranges each appear at once, half of them change, all but one go away; small policies before and after them."""
+    names = [f"vol-{i:02d}" for i in range(12)] + ["aaa-first", "zzz-last"]
+    def rng4(i, shift):
+        base = 340 * i + shift
+        return ["100.%d.%d.0/24" % (64 + ((2 * (base + j)) >> 8), (2 * (base + j)) & 0xff) for j in range(400)]
+    runs = []
+    for k in range(4):
+        kk = min(k, 2)
+        irr = Irr(); running = []; policies = {}
+        for i, name in enumerate(names):
+            if name.startswith("vol"):
+                if kk == 2 and i != 0:
+                    running.append(stmt(name, "/* no longer managed */"))
+                    policies[name] = exp(False, False, "none", why="unmarked")
+                    continue
+                p4 = rng4(i, 7 if (kk >= 1 and i % 2) else 0)
+                irr.n += 1
+                asn = f"AS{65100 + i}"; sname = f"AS-VOL{i}"
+                irr.db["as_sets"][sname] = [asn]; irr.db["routes4"][asn] = p4; irr.db["routes6"][asn] = []
+                running.append(stmt(name, f"/* bgpfu-fltr: {sname} */"))
+                policies[name] = {"sel": True, "marked": True, "eval": "ok", "v4": p4, "v6": [], "expr": sname, "why": "400 ranges, one of twelve"}
+            else:
+                e = irr.asset_with(["a"], ["c"])
+                running.append(stmt(name, f"/* bgpfu-fltr: {e} */"))
+                policies[name] = exp(True, True, "ok", ["a"], ["c"], e, "small policy next to the large ones")
+        runs.append({"running": running, "irr": irr.db, "faults": [], "repeat": k == 3,
+                     "expect": {"prop": prop, "c16": False, "policies": policies}})
+    return [{"case": f"{prop}-vol", "instance": "bgpfu", "eph0": [], "runs": runs, "meta": {"family": "volume", "statements_in_first_run": 12 * 401}}]
 
 def big_scenarios(prop):
     """Sizes that cross the round numbers code likes to batch, buffer and cap by (1000, 1024): a policy with 1000 / 1100
